@@ -167,8 +167,9 @@ func runC09(c *Ctx, w *World, r *Report) {
 					}
 					// a exhausted first: i - len(b) <= -1
 					if k == -1 {
-						if D, op, ok := fa.CondRel(cd); ok && (op == opLT) {
-							if D.T["call:builtin len(p1)"] == -1 {
+						if D, op, ok := fa.CondRel(cd); ok {
+							// i < len(b), written either way round
+							if op == opLT && D.T["call:builtin len(p1)"] == -1 || op == opGT && D.T["call:builtin len(p1)"] == 1 {
 								okV = true
 							}
 						}
